@@ -55,6 +55,11 @@ FPOriginMap(h) ==
                  ELSE LET p == h.par[c][k]  pi == CHOOSE q \in DOMAIN h.ver[p] : h.ver[p][q] = x IN O[p][pi]]
   IN O
 FPOrigin(h, at) == FPOriginMap(h)[at]
+\* scenario tag: some ancestor-or-self of `at` is a merge identical to a parent that is not its first parent
+\* while an earlier parent shares a line with it (git: the identical parent takes all)
+IdentLater(h, at) == \E c \in AncOf(ParSet(h.par))[at] : \E k \in 2..Len(h.par[c]) :
+                        /\ h.ver[h.par[c][k]] = h.ver[c]
+                        /\ \E j \in 1..(k - 1) : h.ver[h.par[c][j]] # h.ver[c] /\ \E x \in SeqRange(h.ver[c]) : Has(h.ver[h.par[c][j]], x)
 
 HasMerge(h, at) == \E c \in AncOf(ParSet(h.par))[at] : Len(h.par[c]) > 1
 
@@ -80,6 +85,7 @@ Row(hi) == LET h == HistSeq[hi] IN
    anc |-> [c \in 1..NCm(h) |-> SetToSeq(AncOf(ParSet(h.par))[c])],
    merge |-> [c \in 1..NCm(h) |-> HasMerge(h, c)],
    origin |-> IF Determinate(h) THEN [c \in 1..NCm(h) |-> Origin(h, c)] ELSE <<>>,
+   identlater |-> [c \in 1..NCm(h) |-> IdentLater(h, c)],
    fp |-> FPDet(h), fporigin |-> IF FPDet(h) THEN FPOriginMap(h) ELSE <<>>]
 ASSUME Emit => ndJsonSerialize("blame_hist.ndjson", [hi \in 1..Len(HistSeq) |-> Row(hi)])
 
